@@ -84,7 +84,7 @@ fn gen_disk_stall(rng: &mut Rng) -> LogWorldScenario {
         cmd_files.push(CmdFile { target: path.clone(), command: "build".into(), rel: WorldSpec::default_cmd_rel(&path, "build"), exec: true, broken: false });
         targets.push(TargetSpec { path, ..Default::default() });
     }
-    let spec = WorldSpec { targets, cmd_files, files: vec![], sequences: vec![], max_retained_runs: 2, gitignore: vec![], git: false, lock_host: None, default_ports: 0, omit_max_retained: false, sha256_repo: false, clock_plan: vec![] };
+    let spec = WorldSpec { targets, cmd_files, files: vec![], sequences: vec![], max_retained_runs: 2, gitignore: vec![], git: false, lock_host: None, default_ports: 0, omit_max_retained: false, sha256_repo: false, clock_plan: vec![], script_wrappers: 0 };
     let mut script = RunScript::simple(RunOpts { commands: vec!["build".into()], ..Default::default() });
     let rounds = rng.range(105, 130);
     for (ti, cf) in spec.cmd_files.iter().enumerate() {
@@ -128,7 +128,7 @@ fn gen_many_alive(rng: &mut Rng) -> LogWorldScenario {
         cmd_files.push(CmdFile { target: path.clone(), command: "build".into(), rel: WorldSpec::default_cmd_rel(&path, "build"), exec: true, broken: false });
         targets.push(TargetSpec { path, ..Default::default() });
     }
-    let spec = WorldSpec { targets, cmd_files, files: vec![], sequences: vec![], max_retained_runs: 2, gitignore: vec![], git: false, lock_host: None, default_ports: 0, omit_max_retained: false, sha256_repo: false, clock_plan: vec![] };
+    let spec = WorldSpec { targets, cmd_files, files: vec![], sequences: vec![], max_retained_runs: 2, gitignore: vec![], git: false, lock_host: None, default_ports: 0, omit_max_retained: false, sha256_repo: false, clock_plan: vec![], script_wrappers: 0 };
     let mut script = RunScript::simple(RunOpts { commands: vec!["build".into()], ..Default::default() });
     let rounds = rng.range(2, 3);
     for cf in &spec.cmd_files {
@@ -166,7 +166,7 @@ fn gen_log_world(seed: u64, idx: usize) -> LogWorldScenario {
         }
         targets.push(TargetSpec { path, ..Default::default() });
     }
-    let spec = WorldSpec { targets, cmd_files, files: vec![], sequences: vec![], max_retained_runs: 2, gitignore: vec![], git: false, lock_host: None, default_ports: 0, omit_max_retained: false, sha256_repo: false, clock_plan: vec![] };
+    let spec = WorldSpec { targets, cmd_files, files: vec![], sequences: vec![], max_retained_runs: 2, gitignore: vec![], git: false, lock_host: None, default_ports: 0, omit_max_retained: false, sha256_repo: false, clock_plan: vec![], script_wrappers: 0 };
     let mut script = RunScript::simple(RunOpts { commands: cmds.clone(), ..Default::default() });
     let real_pause = rng.chance(1, 20);
     for cf in &spec.cmd_files {
